@@ -13,7 +13,7 @@ ID = "C10"
 LEVEL = "model_checking"
 RULE = ("full product kind x required x nullability notation (none, 3.0 nullable, 3.1 type list, oneOf/anyOf null member, null enum "
         "member) x default (absent/present) x position (model property, body property via an endpoint, query, header, cookie, "
-        "path); every position also with the parameter shared through a path item (3 operations) or a reusable parameter (3 uses); optional model properties also as parent / sibling of a child that re-states them more strictly (2 orders); present state exercised with every sample incl. falsy members and values; thorough: the holder model as JSON body and response of an operation; non-trivial = the class/function was generated and its three states were exercised; kinds include one-member unions (single-entry type list, anyOf / oneOf of one), falsy enum members, a second inline enum resolving to an existing class, typed + allOf-composed nullable objects; decoding twice from one mapping must agree and leave the mapping as it was")
+        "path); every position also with the parameter shared through a path item (3 operations) or a reusable parameter (3 uses); optional model properties also as parent / sibling of a child that re-states them more strictly (2 orders); present state exercised with every sample incl. falsy members and values; thorough: the holder model as JSON body and response of an operation; non-trivial = the class/function was generated and its three states were exercised; kinds include one-member unions (single-entry type list, anyOf / oneOf of one), falsy enum members, a second inline enum resolving to an existing class, typed + allOf-composed nullable objects; decoding twice from one mapping must agree and leave the mapping as it was; None for a nullable parameter is never transmitted like a value")
 FLOOR = 0.5
 ASSUMPTIONS = ["nullable iff nullable:true on a typed non-enum schema, 'null' in a type list, a null oneOf/anyOf member, or null among enum values (DESIGN §2.4)"]
 
@@ -357,6 +357,15 @@ def _param_one(p, res, sb, ep, key):
                 sent = (pos == "query" and q["query"]) or (pos == "cookie" and q["cookies"]) or (pos == "header" and any(k == "p" for k, _ in q["headers"]))
                 if sent:
                     viol.append({"oracle": "param-absent-wire", "site": pos, "key": key, "detail": f"omitted parameter transmitted: {wire.req_summary(q)!r}"})
+    # null: what a nullable parameter transmits for None is never what it transmits for a value (the falsy ones included)
+    null_req = None
+    if pos != "path" and nullable and _admits_none(ann):
+        r = wire.call(mod, "sync_detailed", lambda: wire.make_client(sb, cap), cap, {py: None})
+        if r["ok"] and r["requests"]:
+            null_req = wire.req_summary(r["requests"][0])
+            ra = wire.call(mod, "asyncio_detailed", lambda: wire.make_client(sb, cap), cap, {py: None})
+            if ra["ok"] and ra["requests"] and wire.req_summary(ra["requests"][0]) != null_req:
+                viol.append({"oracle": "param-null-wire", "site": pos, "key": key + "/variants", "detail": f"None is transmitted as {null_req!r} by sync_detailed and as {wire.req_summary(ra['requests'][0])!r} by asyncio_detailed"})
     # present: every sample value, the falsy ones included, is transmitted (an empty array has nothing to transmit)
     if pos != "path":
         for _c, sample in [x for x in _samples(p["kind"]) if x[0] != "null"][:4]:
@@ -374,6 +383,8 @@ def _param_one(p, res, sb, ep, key):
             if not sent:
                 falsy = "/falsy" if sample in ("", 0, False) else ""
                 viol.append({"oracle": "param-present-wire", "site": pos, "key": key + falsy, "detail": f"argument {sample!r} was passed but nothing was transmitted: {wire.req_summary(q)!r}"})
+            elif null_req is not None and wire.req_summary(q) == null_req:
+                viol.append({"oracle": "param-null-wire", "site": pos, "key": key, "detail": f"None and {sample!r} are transmitted identically: {null_req!r}"})
     return viol
 
 
